@@ -126,7 +126,27 @@ def gen_spec(rng, nmax=300, dec=None, with_vel=None, force=None):
     return {'title': title, 'records': records, 'box': None if box is None else box.tolist(), 'box_class': bcls,
             'dec': d, 'format': fmt, 'declare_count': bool(rng.random() < 0.5) if 'declare' not in force else force['declare'],
             'with_vel': vel, 'number_class': ncls, 'coord_class': ccls,
-            'use_writelines': bool(rng.random() < 0.2), 'as_tuple': bool(rng.random() < 0.3)}
+            'use_writelines': bool(rng.random() < 0.2), 'as_tuple': bool(rng.random() < 0.3),
+            'schedule': gen_schedule(rng, n) if rng.random() < 0.35 else None}
+
+
+def gen_schedule(rng, n):
+    """Random sequence of writeline / writelines calls covering n records (chunks of
+    0, 1, 2, ... records; a one-record writelines call first is generated on purpose)."""
+    out, k = [], 0
+    first = True
+    while k < n:
+        r = rng.random()
+        if r < 0.3:
+            out.append(('line',))
+            k += 1
+        else:
+            size = int(rng.choice([0, 1, 1, 2, 3, 7])) if (first or rng.random() < 0.7) else int(rng.integers(1, n - k + 1))
+            size = min(size, n - k)
+            out.append(('lines', size))
+            k += size
+        first = False
+    return out
 
 
 def record_list(rec, as_tuple=False):
@@ -151,11 +171,26 @@ def write_spec(spec, path, GroFile=None, upto=None, close=True):
     if spec['format'] == 'set':
         g.position_format = (spec['dec'] + 5, spec['dec'])
     recs = spec['records'] if upto is None else spec['records'][:upto]
-    if spec.get('use_writelines'):
-        g.writelines([record_list(r, spec.get('as_tuple')) for r in recs])
+    rows = [record_list(r, spec.get('as_tuple')) for r in recs]
+    if spec.get('schedule'):
+        # a sequence of writer calls: ('line',) one record with writeline, ('lines', k) k records with writelines
+        k = 0
+        for call in spec['schedule']:
+            if k >= len(rows) and not (call[0] == 'lines' and call[1] == 0):
+                break
+            if call[0] == 'line':
+                g.writeline(rows[k])
+                k += 1
+            else:
+                g.writelines(rows[k:k + call[1]])
+                k += call[1]
+        for row in rows[k:]:
+            g.writeline(row)
+    elif spec.get('use_writelines'):
+        g.writelines(rows)
     else:
-        for r in recs:
-            g.writeline(record_list(r, spec.get('as_tuple')))
+        for row in rows:
+            g.writeline(row)
     if close:
         g.close()
     return g
